@@ -105,13 +105,13 @@ fn parse_roundtrip<const N: usize>() {
 }
 
 #[kani::proof]
-#[kani::unwind(10)]
+#[kani::unwind(7)]
 fn c41_parse() {
     parse_roundtrip::<52>();
 }
 
 #[kani::proof]
-#[kani::unwind(22)]
+#[kani::unwind(18)]
 fn c41_parse_64() {
     parse_roundtrip::<64>();
 }
@@ -247,17 +247,22 @@ fn build_case<const W: usize>(kind: u8, ntlv: usize, l0: usize, l1: usize) {
     }
 
     let back = Message::deserialize(&wire[..w]);
-    assert!(matches!(&back, Ok(m2) if *m2 == m), "serialised message parses back to an equal message");
+    assert!(back.is_ok(), "serialised message parses back");
     if let Ok(m2) = &back {
-        // the TLVs come back, in order, through the iterator
+        assert!(m2.header == m.header, "parsed header equals the original");
+        assert!(m2.body == m.body, "parsed body equals the original");
+        assert!(m2.wire_size() == w, "parsed message has the original wire size (TLV suffix of the same length)");
+        // the TLVs come back, in order and with their values, through the iterator
+        // (suffix equality is checked TLV by TLV: a slice comparison of the whole suffix is a
+        // 17-iteration memcmp loop and would force that unwinding bound onto the parser's loops)
         let mut it = m2.suffix.tlvs();
         if ntlv >= 1 {
             let a = it.next();
-            assert!(matches!(&a, Some(t) if t.tlv_type == t0 && t.value.len() == l0), "first TLV is iterated");
+            assert!(matches!(&a, Some(t) if t.tlv_type == t0 && t.value.len() == l0 && t.value[..] == v0[..l0]), "first TLV comes back equal");
         }
         if ntlv >= 2 {
             let b = it.next();
-            assert!(matches!(&b, Some(t) if t.tlv_type == t1 && t.value.len() == l1), "second TLV is iterated");
+            assert!(matches!(&b, Some(t) if t.tlv_type == t1 && t.value.len() == l1 && t.value[..] == v1[..l1]), "second TLV comes back equal");
         }
         assert!(it.next().is_none(), "no further TLVs");
     }
@@ -294,7 +299,7 @@ fn build_sym<const W: usize>(kind: u8, region: Region) {
 macro_rules! build_harness {
     ($name:ident, $kind:expr, $region:expr) => {
         #[kani::proof]
-        #[kani::unwind(18)]
+        #[kani::unwind(10)]
         fn $name() {
             build_sym::<80>($kind, $region);
         }
